@@ -362,7 +362,10 @@ func arithProducer(v ssa.Value, seen map[ssa.Value]bool) bool {
 			}
 		}
 	case *ssa.Parameter:
-		return arithParams[x]
+		if pp := programOf(x.Parent().Prog); pp != nil {
+			return pp.memoArithParams[x]
+		}
+		return false
 	}
 	return false
 }
@@ -401,10 +404,9 @@ func unguardedArithResult(callee *ssa.Function, k int, seen map[ssa.Value]bool) 
 
 // arithParams: parameters of repository functions that receive an arithmetic result at some call site (the guard may live
 // in a shared helper; the helper's return is then the obligation).
-var arithParams = map[*ssa.Parameter]bool{}
 
 func ruleEInfNaN(p *Program, r *Reporter) {
-	arithParams = map[*ssa.Parameter]bool{}
+	p.memoArithParams = map[*ssa.Parameter]bool{}
 	for round := 0; round < 3; round++ {
 		for _, fn := range p.ReachFuncs(p.Eval) {
 			for _, b := range fn.Blocks {
@@ -419,7 +421,7 @@ func ruleEInfNaN(p *Program, r *Reporter) {
 					}
 					for i, a := range c.Call.Args {
 						if arithProducer(a, map[ssa.Value]bool{}) {
-							arithParams[callee.Params[i]] = true
+							p.memoArithParams[callee.Params[i]] = true
 						}
 					}
 				}
@@ -813,8 +815,15 @@ func ruleEConvLossless(p *Program, r *Reporter) {
 					r.Trivial(cv.Pos(), key, "target range contains source range")
 					continue
 				}
-				if rangeChecked(b, cv.X) {
-					r.OK(cv.Pos(), key, "operand range-checked by a dominating comparison with a constant")
+				if up, lo := boundsChecked(b, cv.X); up && (lo || !ss) {
+					r.OK(cv.Pos(), key, "operand range-checked by dominating comparisons with constants (upper bound, and lower bound for a signed source)")
+					continue
+				} else if up || lo {
+					side := "lower"
+					if !up {
+						side = "upper"
+					}
+					r.Bad(instrPos(cv), key, fmt.Sprintf("conversion %s -> %s is range-checked on one side only: no dominating %s-bound test, so values beyond it wrap around", src.Name(), dst.Name(), side))
 					continue
 				}
 				if isCharArith(cv.X) {
@@ -825,6 +834,41 @@ func ruleEConvLossless(p *Program, r *Reporter) {
 			}
 		}
 	}
+}
+
+// boundsChecked: dominating facts bound v (or a widening conversion of v) above / below by constants.
+func boundsChecked(b *ssa.BasicBlock, v ssa.Value) (upper, lower bool) {
+	same := func(x ssa.Value) bool {
+		if x == v {
+			return true
+		}
+		if cv, ok := x.(*ssa.Convert); ok && cv.X == v {
+			return true
+		}
+		return false
+	}
+	for _, f := range blockFacts(b) {
+		op, x, y, ok := f.rel()
+		if !ok {
+			continue
+		}
+		if _, isC := x.(*ssa.Const); isC && same(y) {
+			x, y = y, x
+			op = flipOp(op)
+		}
+		if _, isC := y.(*ssa.Const); !isC || !same(x) {
+			continue
+		}
+		switch op {
+		case token.LSS, token.LEQ:
+			upper = true
+		case token.GTR, token.GEQ:
+			lower = true
+		case token.EQL:
+			upper, lower = true, true
+		}
+	}
+	return
 }
 
 func rangeChecked(b *ssa.BasicBlock, v ssa.Value) bool {
